@@ -9,7 +9,8 @@ BEGIN / COMMIT / ROLLBACK / SAVEPOINT shapes: failing inside an open transaction
 transaction, balanced, COMMIT without BEGIN) or none, plus failures AFTER a fully successful replay
 (invalid --exclude glob, --format template error, unwritable new migration file, plan failing on the target) x
 dev start states {missing, empty file, empty db, tables+rows, empty table, view only, view+trigger,
-table+index+trigger, revisions table only, libsql_* table, sqlite_sequence only, orphan index row, WAL}.
+table+index+trigger, revisions table only, libsql_* / sqlite3_* table, virtual tables only (fts4, rtree, fts5 whose
+module the CLI lacks), shadow tables only, sqlite_sequence / sqlite_stat1 only, orphan index row, WAL}.
 
 Oracle (nothing is asked from Atlas): python sqlite3 dump + integrity_check + sha256 of the dev FILE and
 name->sha256 of the source directory, before and after the single CLI call of the case.
@@ -153,8 +154,10 @@ def build_cases():
                              (rng.randrange(n + 1), txk[rng.randrange(len(txk))])]
                     pk = list(L.POISON_KINDS)
                     picks.append((rng.randrange(n + 1), pk[(ci + si + ctx.seed) % len(pk)]))
-                    if pk[(ci + si + ctx.seed) % len(pk)] != pk[0] and si == 0:
-                        picks.append((rng.randrange(n + 1), pk[0]))  # the FK shape once per command
+                    if si == 0:  # one shape per inspection stage (columns, indexes, foreign keys) for every command
+                        for k in ("inspect-fails:type-size", "inspect-fails:index-lowercase-where", "inspect-fails:fk-ref-column"):
+                            if k != picks[-1][1]:
+                                picks.append((rng.randrange(n + 1), k))
                 else:
                     picks = [(pos, k) for pos in range(n + 1) for k in txk]
                 for pos, kind in picks:
@@ -365,8 +368,8 @@ def run_case(c, verbose=False):
         elif after["exists"] and not after["master"] and after["integrity"] == ["ok"]:
             ctx.count("internal-only-dev:handed-back-empty")
         else:
-            v("C14|internal-only-dev-damaged|%s" % fam, "%s on a dev database holding only sqlite_sequence left %s" % (cmd, [m[:2] for m in after["master"]][:4]))
-        ctx.out_of_domain("refusal-demand:dev-holds-only-sqlite_sequence")
+            v("C14|internal-only-dev-damaged|%s" % fam, "%s on a dev database holding only SQLite's own bookkeeping tables (%s) left %s" % (cmd, c["dev"], [m[:2] for m in after["master"]][:4]))
+        ctx.out_of_domain("refusal-demand:dev-holds-only-sqlite_-bookkeeping-tables")
     # ---- directory ----
     dd = events["dir_delta"]
     allowed_add, allowed_chg = set(), set()
